@@ -776,6 +776,8 @@ func c06Gen(g *G) {
 		}
 		g.Emit(c.op("honest:random"), "honest", fmt.Sprintf("fingerprints:before=%d,after=%d", len(c.S.ExtraFps), len(c.S.LaterFps)))
 	}
+	// (g) the client's own draws as an input of the exchange (c06draw.go)
+	c06DrawGen(g, next, groups)
 	// (f) the exchange in other environments: the server's frames delivered in pieces, the session file in other places
 	c06EnvGen(g, next, groups)
 	// (e) the factoring of pq on its own: the real math.SplitPQ against its Lean model (c06split.go)
@@ -920,6 +922,8 @@ func c06Exec(op []string) string {
 		run, line := c06One(c, "notfound", &c.S.Key.PublicKey)
 		c06Last = []*hsRun{run}
 		return line
+	case "c06.draw":
+		return c06DrawExec(op)
 	case "c06.env":
 		c, ok := c06ParseEnv(op)
 		if !ok {
@@ -982,6 +986,13 @@ func c06Judge(op []string, out string) string {
 	if op[0] == "c06.hs" {
 		c, _ := c06Parse(op)
 		return keyNote(c, c06JudgeRun(runs[0], "notfound", clock(0)))
+	}
+	if op[0] == "c06.draw" {
+		c, refusal, more, ok := c06ParseDraw(op)
+		if !ok {
+			return "no run recorded"
+		}
+		return keyNote(c, c06JudgeDraw(runs[0], c, refusal, more, clock(0)))
 	}
 	if op[0] == "c06.env" {
 		c, ok := c06ParseEnv(op)
@@ -1051,6 +1062,24 @@ func c06JudgeHist(run *hsRun, history, cfg string, pre, post []string, clock str
 }
 
 func c06JudgeRun(run *hsRun, cfg string, clock string) []string {
+	bad := c06JudgeRunCore(run, cfg, clock)
+	add := func(f string, a ...interface{}) { bad = append(bad, fmt.Sprintf(f, a...)) }
+	if storeMode, _ := c06SplitCfg(cfg); storeMode == "fail" {
+		return bad
+	}
+	// (not asked of a c06.draw exchange, whose stream goes on after the first exponent: a client that draws its
+	// exponent again is as good as one that does not)
+	if run.Outcome == "ok" && run.RandUsed != 16+32+256 {
+		add("the client drew %d bytes from crypto/rand, not nonce (16) + new_nonce (32) + DH exponent (256)", run.RandUsed)
+	}
+	if run.Overrun > 0 {
+		add("the client drew %d random bytes more than nonce, new_nonce and one DH exponent", run.Overrun)
+	}
+	return bad
+}
+
+// c06JudgeRunCore: the property on one exchange with a conformant server, whatever the client drew and however often
+func c06JudgeRunCore(run *hsRun, cfg string, clock string) []string {
 	storeMode, _ := c06SplitCfg(cfg)
 	var bad []string
 	add := func(f string, a ...interface{}) { bad = append(bad, fmt.Sprintf(f, a...)) }
@@ -1126,12 +1155,6 @@ func c06JudgeRun(run *hsRun, cfg string, clock string) []string {
 				}
 			}
 		}
-	}
-	if run.Outcome == "ok" && run.RandUsed != 16+32+256 {
-		add("the client drew %d bytes from crypto/rand, not nonce (16) + new_nonce (32) + DH exponent (256)", run.RandUsed)
-	}
-	if run.Overrun > 0 {
-		add("the client drew %d random bytes more than nonce, new_nonce and one DH exponent", run.Overrun)
 	}
 	return bad
 }
